@@ -321,6 +321,8 @@ impl Consume for SenderFlowState {
             match consume_link_credit(&self.state().lock, item) {
                 Ok(outcome) => return outcome,
                 Err(_) => {
+                    #[cfg(fe2o3_amqp_verif)]
+                    crate::verif::point("credit.after_failed_check").await;
                     notified.await // **NOT** cancel safe
                 }
             }
